@@ -130,19 +130,19 @@ class Nvl(Binary):
                     "Nvl operation at scalar level must have scalar "
                     "types on right (applicable) side"
                 )
-            cls.type_validation(left.data_type, right.data_type)
-            return Scalar(name="result", value=None, data_type=left.data_type, nullable=False)
+            result_type = cls.type_validation(left.data_type, right.data_type)
+            return Scalar(name="result", value=None, data_type=result_type, nullable=False)
         if isinstance(left, DataComponent):
             if isinstance(right, Dataset):
                 raise ValueError(
                     "Nvl operation at component level cannot have "
                     "dataset type on right (applicable) side"
                 )
-            cls.type_validation(left.data_type, right.data_type)
+            result_type = cls.type_validation(left.data_type, right.data_type)
             return DataComponent(
                 name=comp_name,
                 data=None,
-                data_type=left.data_type,
+                data_type=result_type,
                 role=Role.MEASURE,
                 nullable=False,
             )
@@ -152,12 +152,15 @@ class Nvl(Binary):
                     "Nvl operation at dataset level cannot have component "
                     "type on right (applicable) side"
                 )
+            promoted = {}
             if isinstance(right, Scalar):
                 for component in left.get_measures():
-                    cls.type_validation(component.data_type, right.data_type)
+                    promoted[component.name] = cls.type_validation(
+                        component.data_type, right.data_type
+                    )
             if isinstance(right, Dataset):
                 for component in left.get_measures():
-                    cls.type_validation(
+                    promoted[component.name] = cls.type_validation(
                         component.data_type, right.components[component.name].data_type
                     )
             result_components = {
@@ -167,6 +170,8 @@ class Nvl(Binary):
             }
             for comp in result_components.values():
                 comp.nullable = False
+                if comp.name in promoted:
+                    comp.data_type = promoted[comp.name]
         return Dataset(name=dataset_name, components=result_components, data=None)
 
 
